@@ -135,7 +135,83 @@ def parts(tier):
             Part("reset_fd_jacobian", enumerate=_fd_cases, timeout=300, exhaustive=True),
             Part("history", strategy=_history(), examples=300 if q else 6000, timeout=600),
             Part("split", strategy=_split(), examples=300 if q else 6000, timeout=300),
-            Part("neighbours", enumerate=_neighbour_cases, timeout=120, exhaustive=True)]
+            Part("neighbours", enumerate=_neighbour_cases, timeout=120, exhaustive=True),
+            Part("reset_after_unrecorded_work", enumerate=_unrecorded_cases, timeout=300, exhaustive=True)]
+
+
+def _unrecorded_cases():
+    """a first call that makes the integrator work but records no step (the right-hand side raises late in the first step, an
+    event function raises while the first step is examined, a terminal event sits on the starting point), then reset() and a
+    plain run - against a freshly built system"""
+    for method in ("RadauIIA5", "LobattoIIIC4", "GaussLegendre4", "ImplicitMidpoint", "BackwardEuler", "CrankNicolson", "Rich2:RK4Solver", "Rich2:ImplicitMidpoint", "RK45CKSolver", "ABAs5o6HSolver"):
+        for trigger, ks in (("rhs_fault", (3, 8, 15, 30, 60, 120)), ("event_fault", (0,)), ("terminal_at_start", (0,))):
+            for k in ks:
+                for direction in (1.0, -1.0):
+                    yield dict(part="reset_after_unrecorded_work", method=method, trigger=trigger, k=k, direction=direction)
+
+
+def _check_unrecorded(case):
+    import desolver as de
+    method = case["method"]
+    attrs = dict(method=method, trigger=case["trigger"])
+    labels = ["unrecorded:" + case["trigger"], "method0:" + method]
+
+    class Fault(Exception):
+        pass
+    y0 = np.array([1.0, -0.5])
+    tf = case["direction"] * 1.0
+
+    def build(counter=None):
+        def rhs(t, y, **kw):
+            if counter is not None:
+                counter[0] += 1
+                if counter[1] is not None and counter[0] == counter[1]:
+                    counter[1] = None
+                    raise Fault("injected")
+            return np.array([-2.0 * y[0] + 0.1 * y[1] ** 2, -0.5 * y[1] + np.sin(3.0 * t)])
+        s_ = de.OdeSystem(rhs, y0=y0.copy(), t=(0.0, tf), dt=0.25, rtol=1e-6, atol=1e-6, dense_output=True)
+        s_.method = M.get(method)
+        return s_
+    cnt = [0, None]
+    a = build(cnt)
+    evs = None
+    if case["trigger"] == "rhs_fault":
+        cnt[1] = cnt[0] + case["k"]
+    elif case["trigger"] == "event_fault":
+        def boom(t, y, **kw):
+            raise Fault("injected in an event function")
+        evs = [boom]
+    else:
+        def at_start(t, y, **kw):
+            return y[0] - 1.0
+        at_start.is_terminal = True
+        evs = [at_start]
+    try:
+        a.integrate(events=evs)
+        outcome = "returned"
+    except de.exception_types.FailedIntegration:
+        outcome = "failed"
+    cnt[1] = None
+    if len(a) != 1:
+        return [], dict(nontrivial=False, labels=labels + ["a_step_was_recorded:not_this_part"])
+    labels.append("first_call:" + outcome)
+    try:
+        a.reset()
+        a.integrate()
+        f = build()
+        f.integrate()
+    except Exception as e:
+        if exc_origin(e)[0] == "harness":
+            raise
+        return [V("operation_raised", "{}: reset() / integrate() after a first call that recorded nothing raised {!r}".format(method, e), "unrecorded" + exc_sig(e), **attrs)], dict(nontrivial=False, labels=labels)
+    ta, ya, tb, yb = np.asarray(a.t), np.asarray(a.y), np.asarray(f.t), np.asarray(f.y)
+    viols = []
+    if len(ta) != len(tb) or not np.array_equal(ta, tb) or not np.array_equal(ya, yb):
+        k_ = next((i for i in range(min(len(ta), len(tb))) if ta[i] != tb[i] or not np.array_equal(ya[i], yb[i])), min(len(ta), len(tb)))
+        viols.append(V("reset_vs_fresh", "{}: after a first call that {} without recording a step ({}{}), reset() and integrate() give {} samples, a fresh system {}; first difference at sample {} (t {!r} vs {!r})".format(
+            method, outcome, case["trigger"], " at evaluation {}".format(case["k"]) if case["trigger"] == "rhs_fault" else "", len(ta), len(tb), k_,
+            float(ta[k_]) if k_ < len(ta) else None, float(tb[k_]) if k_ < len(tb) else None), "unrecorded:" + case["trigger"], **attrs))
+    return viols, dict(nontrivial=True, labels=labels)
 
 
 def _neighbour_cases():
@@ -563,6 +639,8 @@ def check(case):
         return _check_fd(case)
     if case["part"] == "neighbours":
         return _check_neighbours(case)
+    if case["part"] == "reset_after_unrecorded_work":
+        return _check_unrecorded(case)
     if case["part"] == "reset_after_blowup":
         return _check_blowup(case)
     return _check_history(case) if case["part"] == "history" else _check_split(case)
